@@ -53,6 +53,13 @@ def verify(lid, name, prop):
 
 def check(name, checks, scratch=False):
     d = os.path.join(VERIF, "seeded", name)
+    patch = os.path.join(d, "patch.diff")
+    if not os.path.exists(patch) and os.path.exists(patch + ".gz"):
+        # large patches (regenerated tables) are stored compressed
+        import gzip, tempfile as _tf
+        fd, patch = _tf.mkstemp(prefix="seeded-", suffix=".diff")
+        os.write(fd, gzip.open(os.path.join(d, "patch.diff.gz")).read())
+        os.close(fd)
     seed = os.environ.get("SEEDED_SEED", "0")
     tier = os.environ.get("SEEDED_TIER", "quick")
     envp = ""
@@ -61,13 +68,13 @@ def check(name, checks, scratch=False):
         import tempfile
         tmp = tempfile.mkdtemp(prefix="emb-seeded-")
         sh("rsync -a --exclude .git /repo/ %s/repo/" % tmp)
-        rc, out = sh("patch -p1 -s < %s/patch.diff" % d, tmp + "/repo")
+        rc, out = sh("patch -p1 -s < %s" % patch, tmp + "/repo")
         envp = "EMBOSS_REPO=%s/repo " % tmp
     else:
         rc, out = sh("git -C /repo status --porcelain")
         if out.strip():
             print("refusing: /repo has uncommitted changes:\n" + out); return 2
-        rc, out = sh("git -C /repo apply %s/patch.diff" % d)
+        rc, out = sh("git -C /repo apply %s" % patch)
     if rc != 0:
         print("patch does not apply:", out); return 2
     results = {}
